@@ -14,6 +14,9 @@ func init() {
 
 func checkC17(c *Ctx) {
 	l := c.L
+	checkOverlayMaintenance(c, "PASS-overlay")
+	checkMemoAfterIteratorVerdict(c, "ORDER-memo-after-verdict")
+	checkInitialVersionConsumed(c, "ORDER-initial-version-consumed")
 	ea := newErrAnalysis(c, l)
 	c.rule("ERR-E1-dropped", "error of a storage-reaching call has a real use", 150)
 	c.rule("ERR-E2-swallowed", "no nil-error return reachable from the err != nil edge without a sentinel match", 120)
@@ -328,5 +331,93 @@ func checkFailedWriteRetainsBatch(c *Ctx) {
 			c.decide(R, l.fname(fn)+" keeps the batch when the write fails", l.ipos(in), found && okKeep, "error edge returns without closing / replacing the batch",
 				"on the error edge of the physical write the batch is closed or replaced: the operations of the failed commit are gone while the nodes stay keyed in memory, so a repeated SaveVersion writes (almost) nothing and reports the version as saved")
 		}
+	}
+}
+
+// checkMemoAfterIteratorVerdict (shared by C17, C14, C16): the version counters
+// that are discovered by positioning an iterator (latest / first / latest
+// legacy version) are memoised only with a verdict the iterator really gave:
+// on the edge where it is Valid (a key was read), or after its Error() was
+// found nil ("there is none").  Memoising the "none" default before the error
+// test turns one failed storage read into a permanent wrong answer: the error
+// is reported once, every later call answers from the memo.
+func checkMemoAfterIteratorVerdict(c *Ctx, rule string) {
+	l := c.L
+	c.rule(rule, "iterator-discovered version counters are memoised only after Valid() or Error() == nil", 3)
+	resets := map[*ssa.Function]bool{}
+	for _, nm := range []string{"*nodeDB.resetLatestVersion", "*nodeDB.resetFirstVersion", "*nodeDB.resetLegacyLatestVersion"} {
+		if f := l.Func("", nm); f != nil {
+			resets[f] = true
+		}
+	}
+	if len(resets) < 3 {
+		c.anchorMissing(rule, "reset functions of the version counters")
+		return
+	}
+	n := 0
+	for _, fn := range l.SrcFuncs {
+		if l.pkgPathOf(fn) != l.ModPath {
+			continue
+		}
+		// iterators created in fn
+		var iters []ssa.Value
+		allInstrs(fn, func(in ssa.Instruction) {
+			cc := callCommon(in)
+			if cc == nil {
+				return
+			}
+			name := ""
+			if cc.IsInvoke() {
+				name = cc.Method.Name()
+			} else if g := staticCallee(cc); g != nil {
+				name = g.Name()
+			}
+			if name == "Iterator" || name == "ReverseIterator" || name == "getPrefixIterator" {
+				if v, ok := in.(ssa.Value); ok {
+					if e := extractOf(v, 0); e != nil {
+						iters = append(iters, e)
+					}
+				}
+			}
+		})
+		if len(iters) == 0 {
+			continue
+		}
+		isIter := func(v ssa.Value) bool {
+			v = stripTrivial(v)
+			for _, it := range iters {
+				if v == it {
+					return true
+				}
+			}
+			return false
+		}
+		// verdict edges
+		var verdict []guard
+		for _, b := range fn.Blocks {
+			iff := ifOf(b)
+			if iff == nil {
+				continue
+			}
+			cond := stripTrivial(iff.Cond)
+			if call, ok := cond.(*ssa.Call); ok && call.Call.IsInvoke() && call.Call.Method.Name() == "Valid" && isIter(call.Call.Value) {
+				verdict = append(verdict, guard{iff, 0})
+				continue
+			}
+			if x, nn, ok := nilCond(cond); ok {
+				if call, isCall := stripTrivial(x).(*ssa.Call); isCall && call.Call.IsInvoke() && call.Call.Method.Name() == "Error" && isIter(call.Call.Value) {
+					verdict = append(verdict, guard{iff, 1 - nn})
+				}
+			}
+		}
+		for _, in := range callsIn(fn, func(cc *ssa.CallCommon) bool { f := staticCallee(cc); return f != nil && resets[f] }) {
+			n++
+			c.decide(rule, l.fname(fn)+" memoises through "+l.calleeName(in), l.ipos(in), guardsEffect(verdict, in),
+				"behind the iterator's Valid() edge or its Error() == nil edge",
+				"a version counter is memoised before the iterator gave a verdict (neither on its Valid() edge nor after its Error() was found nil): a storage failure while positioning the iterator is reported once and then answered from the memo for good (latest legacy version 'none': the legacy versions disappear, Load() returns an empty tree)")
+		}
+	}
+	if n < 3 {
+		c.anchorMissing(rule, "fewer than 3 memo writes in iterator-positioning functions")
 	}
 }
